@@ -248,7 +248,7 @@ fn judge_quantile(n: usize, q: f64, levels: &[f64], s: &mut Sink) {
         s,
     );
     // elements: data = 0, 10, 20, ... so that the element at rank r is 10 r
-    if n <= 40 {
+    if n <= 40 || n > 60_000 {
         let data: Vec<i64> = (0..n as i64).map(|i| ((i * 7) % n as i64) * 10).collect();
         let uniq = {
             let mut d = data.clone();
@@ -419,6 +419,7 @@ enum Job {
     Pair(Vec<f64>, Vec<f64>, bool),
     Counts(usize),
     Quant(usize),
+    QuantBig(usize, f64),
 }
 
 fn seqs(alpha: &[f64], lo: usize, hi: usize) -> Vec<Vec<f64>> {
@@ -461,6 +462,12 @@ fn run(tier: Tier) -> Sink {
         jobs.push(Job::Counts(n));
         jobs.push(Job::Quant(n));
     }
+    // large unsorted samples through the data entry point (beyond 2^16 elements)
+    for n in [65_537usize, 70_001] {
+        for q in [0.1, 0.5, 0.9] {
+            jobs.push(Job::QuantBig(n, q));
+        }
+    }
     let mut s0 = Sink::new();
     judge_order_independence(&levels, &mut s0);
     let s1 = par_judge(&jobs, |j, s| match j {
@@ -474,6 +481,7 @@ fn run(tier: Tier) -> Sink {
                 judge_counts(*n, k, &levels, s);
             }
         }
+        Job::QuantBig(n, q) => judge_quantile(*n, *q, &levels, s),
         Job::Quant(n) => {
             for j in 1..=32 {
                 judge_quantile(*n, j as f64 / 33.0, &levels, s);
@@ -523,7 +531,7 @@ fn main() {
     s.sample(json!({"check":"mean","producer":"Arithmetic","type":"f64","xs":[0.25,1000.0,-3.0],"relations":["Upper(0.96875).low == TwoSided(0.9375).low bit-exactly (dyadic)","CI(L1) inside CI(L2) for all L1<L2 of the grid","mean inside for two-sided and one-sided L>=1/2","kind/shape"]}));
     s.sample(json!({"check":"counts","producer":"proportion::ci","n":30,"k":7,"relations":["upper request -> [lo,1]","lower -> [0,hi]","k/n inside","nesting","coincidence within 4ulp+1e-13 h"]}));
     s.sample(json!({"check":"quantile","n":57,"q":0.30303,"relations":["ranks of Upper(0.875) == ranks of TwoSided(0.75) exactly","rank round(q n) within one position","nesting of ranks, no slack"]}));
-    rep.rule = format!("producers Arithmetic/Geometric/Harmonic/Paired/Unpaired (f64,f32; Arithmetic and Unpaired also as streaming states with 99 000..250 000 observations, on both sides of the t->normal switch), proportion::ci, ci_z_normal, quantile::ci_indices, quantile::ci; inputs: sequences of length 2..{} over dyadic / non-dyadic / positive alphabets, all sample pairs of length 2..{} over a 5-value alphabet, every (n,k) and 33 quantiles for n<={}; for each input the full table over {} levels x 3 kinds, all ordered level pairs, and the two-sided interval at 2L-1 for every one-sided L>1/2; distinct by (producer, kind, result kind, L>1/2)", tier.pick(3, 4), tier.pick(2, 3), tier.pick(60, 120), mc::levels(tier).len());
+    rep.rule = format!("producers Arithmetic/Geometric/Harmonic/Paired/Unpaired (f64,f32; Arithmetic and Unpaired also as streaming states with 99 000..250 000 observations, on both sides of the t->normal switch), proportion::ci, ci_z_normal, quantile::ci_indices, quantile::ci; inputs: sequences of length 2..{} over dyadic / non-dyadic / positive alphabets, all sample pairs of length 2..{} over a 5-value alphabet, every (n,k) and 33 quantiles for n<={}, quantile::ci also on scrambled samples of 65 537 and 70 001 elements; for each input the full table over {} levels x 3 kinds, all ordered level pairs, and the two-sided interval at 2L-1 for every one-sided L>1/2; distinct by (producer, kind, result kind, L>1/2)", tier.pick(3, 4), tier.pick(2, 3), tier.pick(60, 120), mc::levels(tier).len());
     rep.assume("coincidence is demanded bit-exactly on dyadic levels (2L-1 and the quantile mapping are exact there); on other levels within 4 ulp + (1e-13 + n) x half-width, n = 1e-7 for t-based producers because the crate refines its t quantile only to a 1e-12 cdf residual and the two calls start from quantiles one ulp apart");
     rep.assume("harmonic intervals are claimed only where the reciprocal-space interval is strictly positive (C05)");
     rep.require(s.counter("dyadic-exact-coincidence-checks") > 1000, "fewer than 1000 exact coincidence checks");
